@@ -20,6 +20,10 @@ typedef long double ld;
 static const double K_TOL = 2.0;                 // x documented accuracy of the underlying geodesic solver
 static const double DEG = M_PI / 180;
 
+// A violation inside a KNOWN regime reports under the single regime key, with the monitor that fired in detail.monitor
+static void viol_rg(Ctx& c, const std::string& rg, const std::string& key, const std::string& cls, const J& d) {
+  if (rg.empty()) c.viol(key, cls, d); else c.viol(std::string("regime:C17/proj") + rg, cls, J(d).str("monitor", key));
+}
 struct EllCfg {
   std::string name; double a, f; bool exact; double tol, tolM, b, qm;
   std::unique_ptr<Geodesic> g; std::unique_ptr<AzimuthalEquidistant> ae; std::unique_ptr<Gnomonic> gn;
@@ -153,15 +157,15 @@ static void judge_forward_point(Ctx& c, EllCfg& e, const Centre& ce, const std::
       c.obs("azeq Forward: |atan2(x,y) - azi1|*|m12| / tolerance [" + e.name + "]" + rgo, e1 / Ts, wa);
       c.obs("azeq Forward: |azi - azi2|*|m12| / tolerance [" + e.name + "]" + rgo, e2 / Ts, wa);
       c.obs("azeq Forward: |rk*s12 - m12|/(1+|rk|) / conditioned tolerance [" + e.name + "]" + rgo, ek / Tk, wa);
-      if (es > Ts) c.viol("oracle:C17/azeq/Forward/distance" + rg, cls, J(wa).f("err_m", es).f("tol_m", Ts));
-      if (e1 > Ts) c.viol("oracle:C17/azeq/Forward/azimuth-at-centre" + rg, cls, J(wa).f("err_m", e1).f("tol_m", Ts));
-      if (e2 > Ts) c.viol("oracle:C17/azeq/Forward/azi" + rg, cls, J(wa).f("err_m", e2).f("tol_m", Ts));
-      if (ek > Tk) c.viol("oracle:C17/azeq/Forward/rk" + rg, cls, J(wa).f("err_m", ek).f("tol_m", Tk));
+      if (es > Ts) viol_rg(c, rg, "oracle:C17/azeq/Forward/distance", cls, J(wa).f("err_m", es).f("tol_m", Ts));
+      if (e1 > Ts) viol_rg(c, rg, "oracle:C17/azeq/Forward/azimuth-at-centre", cls, J(wa).f("err_m", e1).f("tol_m", Ts));
+      if (e2 > Ts) viol_rg(c, rg, "oracle:C17/azeq/Forward/azi", cls, J(wa).f("err_m", e2).f("tol_m", Ts));
+      if (ek > Tk) viol_rg(c, rg, "oracle:C17/azeq/Forward/rk", cls, J(wa).f("err_m", ek).f("tol_m", Tk));
       // Reverse o Forward = identity
       double lat2, lon2, az2, rk2; e.ae->Reverse(ce.lat0, ce.lon0, fx, fy, lat2, lon2, az2, rk2);
       double er = chord(e, lat2, lon2, (q128)latd, (q128)lond);
       c.obs("azeq Reverse o Forward: position error / tolerance [" + e.name + "]" + rgo, er / (2 * Ts), wa);
-      if (!(er <= 2 * Ts)) c.viol("law:C17/azeq/Reverse-o-Forward" + rg, cls, J(wa).f("lat2", lat2).f("lon2", lon2).f("err_m", er).f("tol_m", 2 * Ts));
+      if (!(er <= 2 * Ts)) viol_rg(c, rg, "law:C17/azeq/Reverse-o-Forward", cls, J(wa).f("lat2", lat2).f("lon2", lon2).f("err_m", er).f("tol_m", 2 * Ts));
     }
     c.event("azeq Forward judged");
   }
@@ -265,7 +269,7 @@ static void sec_azgn(Ctx& c, uint64_t idx) {
         const std::string rgo = rg.empty() ? "" : " {regime equatorial-near-conjugate}";
         c.obs("azeq Forward o Reverse: radius error / tolerance [" + e.name + "]" + rgo, es / (2 * T), wr);
         c.obs("azeq Forward o Reverse: azimuth error*|m12| / tolerance [" + e.name + "]" + rgo, eaz / (2 * T), wr);
-        if (es > 2 * T || eaz > 2 * T) c.viol("law:C17/azeq/Forward-o-Reverse" + rg, cls, J(wr).f("x2", x2).f("y2", y2).f("es_m", es).f("eaz_m", eaz).f("tol_m", 2 * T));
+        if (es > 2 * T || eaz > 2 * T) viol_rg(c, rg, "law:C17/azeq/Forward-o-Reverse", cls, J(wr).f("x2", x2).f("y2", y2).f("es_m", es).f("eaz_m", eaz).f("tol_m", 2 * T));
       }
     }
     c.event("azeq Reverse judged");
@@ -363,14 +367,14 @@ static void judge_cs_forward(Ctx& c, EllCfg& e, const Centre& ce, const CassiniS
       c.obs("cassini Forward: azimuth error for points exactly on the central (anti)meridian [rad]", eu, wf); c.event("cassini Forward: point exactly on the central (anti)meridian");
       if (eu > 1e-12) c.viol("oracle:C17/cassini/Forward/azi-on-central-meridian", cls, J(wf).f("err_rad", eu));
     } }
-  if (ex > Ts) c.viol("oracle:C17/cassini/Forward/x" + rg, cls, J(wf).f("err_m", ex).f("tol_m", Ts));
-  if (ey > Ts) c.viol("oracle:C17/cassini/Forward/y" + rg, cls, J(wf).f("err_m", ey).f("tol_m", Ts));
-  if (ea > Ts) c.viol("oracle:C17/cassini/Forward/azi" + rg, cls, J(wf).f("err_m", ea).f("tol_m", Ts));
-  if (ek > Ts) c.viol("oracle:C17/cassini/Forward/rk" + rg, cls, J(wf).f("err_m", ek).f("tol_m", Ts));
+  if (ex > Ts) viol_rg(c, rg, "oracle:C17/cassini/Forward/x", cls, J(wf).f("err_m", ex).f("tol_m", Ts));
+  if (ey > Ts) viol_rg(c, rg, "oracle:C17/cassini/Forward/y", cls, J(wf).f("err_m", ey).f("tol_m", Ts));
+  if (ea > Ts) viol_rg(c, rg, "oracle:C17/cassini/Forward/azi", cls, J(wf).f("err_m", ea).f("tol_m", Ts));
+  if (ek > Ts) viol_rg(c, rg, "oracle:C17/cassini/Forward/rk", cls, J(wf).f("err_m", ek).f("tol_m", Ts));
   double lat2, lon2, az2, rk2; cs.Reverse(x, y, lat2, lon2, az2, rk2);
   double er = chord(e, lat2, lon2, (q128)latd, (q128)lond);
   c.obs("cassini Reverse o Forward: position error / tolerance [" + e.name + "]" + rgo, er / (2 * Ts), wf);
-  if (!(er <= 2 * Ts)) c.viol("law:C17/cassini/Reverse-o-Forward" + rg, cls, J(wf).f("lat2", lat2).f("lon2", lon2).f("err_m", er).f("tol_m", 2 * Ts));
+  if (!(er <= 2 * Ts)) viol_rg(c, rg, "law:C17/cassini/Reverse-o-Forward", cls, J(wf).f("lat2", lat2).f("lon2", lon2).f("err_m", er).f("tol_m", 2 * Ts));
   c.event("cassini Forward judged");
 }
 
@@ -429,7 +433,7 @@ static void sec_cassini(Ctx& c, uint64_t idx) {
         double ex = std::fabs(x2 - x), ey = std::fabs(y2 - y) * std::fabs((double)R.P.M12);
         const std::string rg = (std::fabs(lat) < 1e-6 && 2 * std::fabs((double)(R.P.m12 * R.P.M12)) < 1e-3 * e.a) ? "/equatorial-near-conjugate" : "";
         c.obs("cassini Forward o Reverse: max(|dx|, |dy|*M12) / tolerance [" + e.name + "]" + (rg.empty() ? "" : " {regime equatorial-near-conjugate}"), std::max(ex, ey) / (3 * T), wr);
-        if (!(ex <= 3 * T && ey <= 3 * T)) c.viol("law:C17/cassini/Forward-o-Reverse" + rg, cls, J(wr).f("x2", x2).f("y2", y2).f("ex_m", ex).f("ey_m", ey).f("tol_m", 3 * T));
+        if (!(ex <= 3 * T && ey <= 3 * T)) viol_rg(c, rg, "law:C17/cassini/Forward-o-Reverse", cls, J(wr).f("x2", x2).f("y2", y2).f("ex_m", ex).f("ey_m", ey).f("tol_m", 3 * T));
       }
     }
     c.event("cassini Reverse judged");
